@@ -103,7 +103,10 @@ func genTables(c *Ctx, verifDir string) error {
 	if err := os.WriteFile(filepath.Join(verifDir, "tables", "zk_guards.json"), append(b, '\n'), 0o644); err != nil {
 		return err
 	}
-	return genRoundTables(c, verifDir)
+	if err := genRoundTables(c, verifDir); err != nil {
+		return err
+	}
+	return genBlameTable(c, verifDir)
 }
 
 var verifDirGlobal string
